@@ -933,6 +933,8 @@ class Duel:
             self._shut()
             r = self.ep.result(10.0)
         self.peer.w.done = None
+        if r[0] == "exception":
+            raise AssertionError("library endpoint thread raised: %r" % (r,))
         if r == ("timeout",) or r[0] != "handshake":
             self.stalled = True
             return None, rep
